@@ -6,7 +6,8 @@ package timesafeguard
 // answering /status-like JSON with a controlled clock offset, or failing).  The decision must be
 // "refuse" exactly when some ANSWERING peer's clock is far off, whatever the other peers do
 // (a peer that does not answer is ignored, it must not make the node ignore the others).
-// Case line ($VERIF_IN):   tsgnet <id> <peer> <peer> ...     peer = self | dead | ok | off:<seconds>
+// Case line ($VERIF_IN):   tsgnet <id> <peer> <peer> ...     peer = self | dead | ok[@<raft state>] | off:<seconds>[@<raft state>]
+// (the raft state a peer reports — Leader, Follower, Candidate, Shutdown — must not matter: a peer that answers is compared)
 // Output ($VERIF_OUT):     tsgnet <id> accept|refuse
 // Injected by `go test -overlay`; never part of /repo.
 
@@ -30,14 +31,14 @@ import (
 	"github.com/robustirc/internal/health"
 )
 
-func verifPeer(offset time.Duration, fail bool) *httptest.Server {
+func verifPeer(offset time.Duration, fail bool, state string) *httptest.Server {
 	return httptest.NewTLSServer(http.HandlerFunc(func(w http.ResponseWriter, r *http.Request) {
 		if fail {
 			http.Error(w, "starting up", http.StatusServiceUnavailable)
 			return
 		}
 		w.Header().Set("Content-Type", "application/json")
-		json.NewEncoder(w).Encode(health.ServerStatus{State: "Follower", CurrentTime: time.Now().Add(offset)})
+		json.NewEncoder(w).Encode(health.ServerStatus{State: state, CurrentTime: time.Now().Add(offset)})
 	}))
 }
 
@@ -65,6 +66,10 @@ func TestVerifTsgNet(t *testing.T) {
 		var peers []string
 		var servers []*httptest.Server
 		for _, p := range f[2:] {
+			state := "Follower"
+			if k := strings.IndexByte(p, '@'); k >= 0 {
+				state, p = p[k+1:], p[:k]
+			}
 			switch {
 			case p == "self":
 				peers = append(peers, "me:443")
@@ -74,7 +79,7 @@ func TestVerifTsgNet(t *testing.T) {
 					s, _ := strconv.ParseFloat(p[4:], 64)
 					off = time.Duration(s * float64(time.Second))
 				}
-				srv := verifPeer(off, p == "dead")
+				srv := verifPeer(off, p == "dead", state)
 				servers = append(servers, srv)
 				if !trusted {
 					cafile := filepath.Join(t.TempDir(), "ca.pem")
